@@ -164,12 +164,22 @@ class Q:
             join_cols += cc
         # select list
         item_texts = []
-        for i in range(self.pick([1, 2, 3])):
+        twist = r.random() < 0.2        # one item is aliased like a base column that ANOTHER item reads: references to that other item resolve one step only
+        for i in range(self.pick([2, 3]) if twist else self.pick([1, 2, 3])):
             e, ce = self.expr(quals)
             alias = self.pick([None, None, "al%d" % i])
+            if twist and i == 0:
+                e, ce, alias = "px9 + " + e, [(None, "px9", None)] + ce, "al0"
+            elif twist and i == 1:
+                alias = "px9"
             self.items.append((alias, ce))
             item_texts.append(e + (self.pick([" AS %s", " %s", " `%s`", " AS `%s`", " as %s"]) % alias if alias else ""))
             self.cols["select"] += ce
+        if twist:
+            # the library reads an unqualified name that equals a select alias as that alias in EVERY clause (documented on each analyser), one step deep:
+            # item 0's own px9 is reported as what the item aliased px9 reads; a reference to al0 elsewhere is reported as item 0's raw references (px9 stays)
+            i0 = self.cols["select"].index((None, "px9", None))
+            self.cols["select"][i0:i0 + 1] = list(self.items[1][1])
         if r.random() < 0.15:
             q = self.pick(quals)
             item_texts.append(q + ".*")
